@@ -80,7 +80,7 @@ let run_c01 toks obs =
     else begin
       (* argument and tags exactly as supplied: the generator states them per nonce *)
       let inv = invocations evs in
-      let wants = split_on ',' (kv "expectinv" k) in
+      let wants = split_on '|' (kv "expectinv" k) in
       let bad = List.filter (fun w ->
         match String.split_on_char '~' w with
         | [ nn; a; t ] -> (match List.assoc_opt nn inv with
